@@ -15,6 +15,15 @@ type scoreCase2 struct {
 	Level   int    `json:"decoder_level"`
 	NilRecv bool   `json:"nil_receiver"`
 	Input   string `json:"input"`
+	// PreQuery: constructor result queried completely before its single Decode (see scoreCase3)
+	PreQuery bool `json:"queried_before_decode,omitempty"`
+}
+
+func decodeCase2(level spec.Level, c scoreCase2) (obj2, error) {
+	if c.PreQuery && !c.NilRecv {
+		return decode2Pre(level, c.Input)
+	}
+	return decode2(level, c.Input, c.NilRecv)
 }
 
 func fmtSet(s spec.TSet) string {
@@ -31,7 +40,7 @@ var checkC04 = register("C04/decode", func(c scoreCase2) string {
 	if !ok {
 		return ""
 	}
-	o, err := decode2(level, c.Input, c.NilRecv)
+	o, err := decodeCase2(level, c)
 	if err != nil || o.isNil() {
 		return fmt.Sprintf("canonical v2 vector rejected by the %v decoder: %v", level, err)
 	}
@@ -155,7 +164,7 @@ func TestC04(t *testing.T) {
 			lo = spec.Temporal
 		}
 		for lv := lo; lv <= spec.Environmental; lv++ {
-			cs := scoreCase2{Level: int(lv), NilRecv: (i+int(lv))%2 == 0, Input: input}
+			cs := scoreCase2{Level: int(lv), NilRecv: (i+int(lv))%2 == 0, PreQuery: (i+int(lv))%4 == 1, Input: input}
 			evals++
 			if isNT {
 				nt++
@@ -179,7 +188,7 @@ func TestC04(t *testing.T) {
 	c.rapidStage("rapid", pick(64000, 1000000), func(rt *rapid.T) {
 		lv := gen.Level().Draw(rt, "decoder")
 		vec := gen.ValidV2(lv).Draw(rt, "vector")
-		cs := scoreCase2{Level: int(lv), NilRecv: rapid.Bool().Draw(rt, "nilrecv"), Input: vec.String()}
+		cs := scoreCase2{Level: int(lv), NilRecv: rapid.Bool().Draw(rt, "nilrecv"), PreQuery: rapid.IntRange(0, 3).Draw(rt, "prequery") == 0, Input: vec.String()}
 		b, hasT, tt, hasE, _ := spec.IdxV2(vec)
 		isNT, _ := c04Labels(b, hasT, tt)
 		cl := []string{"rapid:decoder=" + lv.String()}
